@@ -602,6 +602,16 @@ func prop(c Case) error {
 	if again, err := cd.marshal(t, bo); err != nil || !bytes.Equal(again, want) {
 		return fmt.Errorf("%s Marshal after the caller overwrote the slice returned by an earlier Marshal: %v\n got  % x\n want % x", c.Mode, err, again, want)
 	}
+	// ... and the caller may do to a decoded geometry what it likes (every ordinate
+	// overwritten, EMPTY points given coordinates, SRIDs changed): the same bytes decode
+	// as before
+	model.Spoil(dec)
+	model.Spoil(hg)
+	if again, err := cd.unmarshal(want); err != nil {
+		return fmt.Errorf("Unmarshal of the same bytes after the caller overwrote the geometry decoded from them before: %v", err)
+	} else if err := sameModel("the same bytes, decoded again after the caller overwrote the geometry decoded from them before,", exp, again, true); err != nil {
+		return err
+	}
 	// (h) the encoding is that of the coordinates as they are now: the first two
 	// ordinates of every coordinate are exchanged in place and the same object is
 	// marshalled again
